@@ -243,6 +243,42 @@ def gaussian_roots(d, seed):
     }
 
 
+def gd3_histories(seed):
+    """name -> (root name of gaussian_roots(3, seed), templates): unitary histories on d = 3 that entangle ALL three modes
+    (single-mode squeezers of different strength / angle on every mode, then beamsplitters 0-1 and 1-2, optionally a two-mode
+    squeezer closing the triangle and a displacement), so that the conditional state of the unmeasured mode(s) depends on how the
+    detection covariances of SEVERAL measured modes are assembled.  VERIF_SEED moves the values by <= 0.04."""
+    from mc import lockstep as L
+
+    g = L.generic(seed)
+    e = g["sq_r"] - 0.23, g["bs_theta"] - 0.37, g["sq_phi"] - 0.67  # 0 for seed 0
+    sq = [("Squeezing", (m,), {"r": round(r + e[0], 6), "phi": round(p + e[2], 6)}) for m, (r, p) in enumerate(((0.5, 0.3), (0.4, -0.7), (0.3, 1.9)))]
+    bs = [("Beamsplitter", (0, 1), {"theta": round(0.7 + e[1], 6), "phi": 0.4}), ("Beamsplitter", (1, 2), {"theta": round(1.1 - e[1], 6), "phi": -0.3})]
+    s2 = ("Squeezing2", (2, 0), {"r": round(0.35 + e[0], 6), "phi": 1.13})
+    dp = ("Displacement", (1,), {"r": 0.31, "phi": 0.47})
+    return {
+        "sq3bs2": ("vac", sq + bs),
+        "sq3bs2s2": ("vac", sq + bs + [s2, dp]),
+        "th_s2bs": ("thermal", [("Squeezing2", (0, 1), {"r": round(0.6 + e[0], 6), "phi": 0.2}), bs[1], sq[2], ("Beamsplitter", (2, 0), {"theta": 0.5, "phi": 1.0})]),
+    }
+
+
+def gd3_measurements(level):
+    """general-dyne lattice of the d = 3 box: homodyne angles x detector squeezings z (anisotropic detectors diag(z^2, 1/z^2)), general-dyne with
+    pure anisotropic (diagonal both ways, tilted), noisy anisotropic and isotropic detection covariances, heterodyne"""
+    R = _rot(0.7)
+    out = [("HomodyneMeasurement", {"phi": p}) for p in (0.0, 0.3, round(np.pi / 2, 12), -1.2)]
+    out += [("HomodyneMeasurement", {"phi": 0.7, "z": 0.01}), ("HomodyneMeasurement", {"phi": 2.5, "z": 0.5})]
+    out += [("HeterodyneMeasurement", {})]
+    covs = [[[2.0, 0.3], [0.3, 0.545]], [[0.2, 0.0], [0.0, 5.0]], [[5.0, 0.0], [0.0, 0.2]], (R @ np.diag([0.1, 10.0]) @ R.T).tolist(),
+            [[0.5, 0.0], [0.0, 4.0]], [[1.5, 0.0], [0.0, 1.5]]]
+    if level == "thorough":
+        out += [("HomodyneMeasurement", {"phi": -2.9, "z": 2.0}), ("HomodyneMeasurement", {"phi": 1.0, "z": 1e-6})]
+        covs += [(R.T @ np.diag([25.0, 0.05]) @ R).tolist(), [[1.0, 0.0], [0.0, 1.0]]]
+    out += [("GeneraldyneMeasurement", {"detection_covariance": c}) for c in covs]
+    return out
+
+
 def fock_roots(kind, d, cutoff, max_photons):
     """name -> (templates, pure?, occupation or None).  kind in purefock / fock / passive"""
     from mc import lockstep as L
@@ -412,7 +448,8 @@ def gaussian_findings(state, pure_expected=None, full=False, stats=None):
             state.validate()
         except InvalidState as e:
             out.append(("validate_raises", "validate", "validate() raised on a physical state: %s" % str(e)[:160]))
-    if full:
+    if full and not any(f[0] == "uncertainty_relation" for f in out):
+        # (the probabilities reported by a state whose covariance is already unphysical are consequences, not further defects)
         out += gaussian_probability_findings(state)
     return out
 
